@@ -138,6 +138,26 @@ def check(ctx):
         )
     ctx.count("node_classes", n_nodes)
     ctx.floor("node_classes", 7)
+    # ---- every tokenizer in the module tags its token with the node type: a reference to key k, an
+    #      alias of k, a data node holding k and the literal k must all tokenize differently
+    n_tok = 0
+    for qn, cn in ts.classes():
+        ci2 = model.classinfo(ts, cn)
+        f = ci2.own_methods.get("__dask_tokenize__")
+        if f is None:
+            continue
+        n_tok += 1
+        rs = [r for r in ast.walk(f) if isinstance(r, ast.Return) and r.value is not None]
+        ok = bool(rs)
+        for r in rs:
+            v = r.value
+            tagged = isinstance(v, ast.Tuple) and v.elts and unparse(v.elts[0]) in ("type(self).__name__", f"'{ci2.name}'", "type(self)")
+            delegated = isinstance(v, ast.Call) and unparse(v) in ("self._get_token()", "super().__dask_tokenize__()")
+            if not (tagged or delegated):
+                ok = False
+        ctx.ob("TAB.type-tag", f, f"{ci2.name}.__dask_tokenize__ carries the node type", ok, "" if ok else f"returns {[unparse(r.value)[:50] for r in rs]}: the token of this node coincides with the token of the plain value it wraps")
+    ctx.count("tokenizers_in_task_spec", n_tok)
+    ctx.floor("tokenizers_in_task_spec", 4)
     # ---- eq / hash
     eq = gn.own_methods.get("__eq__")
     ok = eq is not None and bool(find("type(value) is not type(self)", eq)) and any(Pat("tokenize(self) == tokenize(value)").match(r.value) is not None for r in returns(eq))
@@ -173,6 +193,7 @@ VARIANTS = [
     (TS, "        return (type(self).__name__, self.key, self.target)", "        return (type(self).__name__, self.key)", "TOKFLOW.call-reads"),
     (TS, "        return (type(self).__name__, tokenize(self.value))", "        return (type(self).__name__, tokenize(self.typ))", "TOKFLOW.call-reads"),
     (TS, "        return hash(self._get_token())", "        return hash(self.key)", "SIB.eq-hash.hash"),
+    (TS, "    def __reduce__(self):\n        return TaskRef, (self.key,)", "    def __dask_tokenize__(self):\n        return self.key\n\n    def __reduce__(self):\n        return TaskRef, (self.key,)", "TAB.type-tag"),
     (TS, "        if type(value) is not type(self):\n            return False\n\n        from dask.tokenize import tokenize", "        from dask.tokenize import tokenize", "SIB.eq-hash.eq"),
 ]
 
